@@ -211,6 +211,9 @@ func (r *RootExpr) Validate() error {
 	if r.API == nil {
 		verr.Add(r, "Missing API declaration")
 	}
+	for _, rt := range r.ResultTypes {
+		verr.Merge(rt.validateViewNames())
+	}
 	return &verr
 }
 
